@@ -116,3 +116,23 @@ def guard_facts(node: ast.AST, pm) -> frozenset:
         child = cur
         cur = pm.get(id(cur))
     return frozenset(facts)
+
+
+def returned_name(f) -> str | None:
+    """the single Name returned by a function (e.g. the blueprint variable of _initialize_aggregation)"""
+    names = set()
+    for n in walk_own(f.node):
+        if isinstance(n, ast.Return) and isinstance(n.value, ast.Name):
+            names.add(n.value.id)
+    return names.pop() if len(names) == 1 else None
+
+
+def blueprint_vars(f) -> set[str]:
+    """names of parameters / locals of f that hold the per-call Aggregation blueprint"""
+    out = set()
+    if isinstance(f.node, ast.FunctionDef):
+        for a in f.node.args.posonlyargs + f.node.args.args + f.node.args.kwonlyargs:
+            ann = norm(a.annotation) if a.annotation is not None else ""
+            if a.arg == "agg" or ("Aggregation" in ann and "Scan" not in ann and "str" not in ann):
+                out.add(a.arg)
+    return out
